@@ -69,4 +69,20 @@ CHECKS = {
   'note': COMMON_NOTE + 'As C04. The deterministic harness allows at most one parked producer under Block.',
   'technique': 'Coq proof (order invariant over all schedules; refinement of the sequential machine) + exhaustive bounded sequence correspondence + stalled-appender runs',
  },
+ 'C10': {
+  'text': 'Full on the model (a reading of straight-line code): c10_enabled_once / c10_disabled_nothing / c10_order prove for all 15 entry points, all ranges, all level codes and the 8 hook subsets that an emitted event invokes each set hook exactly once (generator exactly once for Trace/Debug) in the order generator, time, context string, context fields, and that a disabled level invokes nothing. The weight is the correspondence: counting hooks and generators, each call with its own context, before Refresh and with sync/async loggers, ranges with upper bounds, reference-level-only suppression; event content (hook time, context string, context fields first) checked at the sink.',
+  'note': COMMON_NOTE + 'The placement of ctx fields ahead of the call fields in the output is C07/C08.',
+  'technique': 'Coq proof (case analysis of a writer-style model) + differential correspondence with counting hooks',
+ },
+ 'C11': {
+  'text': 'Partial. Proved: the skip arithmetic of both caller-lookup modes over an abstract call stack with the documented runtime.Caller/Callers semantics (c11_default_is_caller, c11_fast_is_caller, c11_modes_agree), transparency of the pc-keyed cache under any sequence of lookups (c11_cache_transparent), empty location when disabled. Runtime residue (inlining, pc-to-line tables, wrapper frames for closures/method values/generics) is covered only by the harness: the complete matrix 15 entry points x call shapes x {default, fast} x repeated calls x enableCaller on/off, expected location taken with runtime.Caller on the same source line; thorough also builds with inlining disabled.',
+  'note': COMMON_NOTE + 'The model assumes the stack shape record :: entry point :: user.',
+  'technique': 'Coq proof (skip arithmetic, cache invariant) + exhaustive call-shape matrix against runtime.Caller',
+ },
+ 'C12': {
+  'text': 'Full on the model: c12_every_appender_once (raw bytes reach each appender reference exactly once for every level setting and order), c12_async_snapshot (for every history of buffer overwrites, writes and worker steps each appender receives the contents at call time, once, in call order; full length reported), c12_alias_refuted (the pre-fix aliasing shape fails on a 3-step history), c12_unconfigured_name_is_error. '
+          'Correspondence through named handles on Refresh-built sync/async loggers with 1-4 recording appenders, a caller recycling one buffer while the worker is parked, concurrent writers, the full-buffer overflow paths, and an unconfigured handle name.',
+  'note': COMMON_NOTE + 'Queue semantics under overflow are C04/C06; the full-buffer stream is checked against the contents-at-call-time oracle rather than the (unbounded-queue) model.',
+  'technique': 'Coq proof (queue-snapshot invariant over histories; permutation of references) + differential correspondence through handles',
+ },
 }
